@@ -643,5 +643,200 @@ pub fn search_c17(seed: u64, first: u64, n_evals: u64) -> SearchOut {
     out
 }
 
+// ------------------------------------------------------------------------------------------------
+// C20: the real codecs (and the Lean byte-level models of them, through the driver)
+
+fn msg_text(m: &Message<VId>) -> String {
+    match m {
+        Message::Ping(n) => format!("ping:{}", n),
+        Message::Ack(n) => format!("ack:{}", n),
+        Message::PingReq { target, probe_number } => format!("pingreq:{}:{}", target.text(), probe_number),
+        Message::IndirectPing { origin, probe_number } => format!("indirectping:{}:{}", origin.text(), probe_number),
+        Message::IndirectAck { target, probe_number } => format!("indirectack:{}:{}", target.text(), probe_number),
+        Message::ForwardedAck { origin, probe_number } => format!("forwardedack:{}:{}", origin.text(), probe_number),
+        Message::Announce => "announce".into(),
+        Message::Feed => "feed".into(),
+        Message::Gossip => "gossip".into(),
+        Message::Broadcast => "broadcast".into(),
+        Message::TurnUndead => "turnundead".into(),
+    }
+}
+
+fn real_dech(k: crate::codec::CodecKind, b: &[u8]) -> String {
+    use foca::Codec;
+    let mut buf: &[u8] = b;
+    match crate::codec::AnyCodec(k).decode_header(&mut buf) {
+        Ok(h) => format!("header {} {} {} {} rest={}", h.src.text(), h.src_incarnation, h.dst.text(), msg_text(&h.message), buf.len()),
+        Err(_) => "none".into(),
+    }
+}
+
+fn real_decm(k: crate::codec::CodecKind, b: &[u8]) -> String {
+    use foca::Codec;
+    let mut buf: &[u8] = b;
+    match crate::codec::AnyCodec(k).decode_member(&mut buf) {
+        Ok(m) => format!("member {} rest={}", crate::proto::member_text(&m), buf.len()),
+        Err(_) => "none".into(),
+    }
+}
+
+/// check name "c20"; instances[0].ops = [Data(bytes)] with the setup's codec; judged: round trip,
+/// clean failure on short buffers / truncations, and agreement of the Lean model with the real decoder.
+pub fn check_c20(case: &SearchCase, drv: &mut Option<crate::driver::Driver>) -> Option<Finding> {
+    use bytes::BufMut;
+    use foca::Codec;
+    let (setup, ops) = &case.instances[0];
+    let k = setup.codec;
+    for op in ops {
+        let bytes = match op {
+            Op::Data(b) => b.clone(),
+            _ => continue,
+        };
+        let r = std::panic::catch_unwind(|| {
+            let h = real_dech(k, &bytes);
+            let m = real_decm(k, &bytes);
+            // a decoded value re-encodes and round-trips with any suffix
+            let mut problems: Vec<String> = Vec::new();
+            let mut buf: &[u8] = &bytes;
+            if let Ok(hd) = crate::codec::AnyCodec(k).decode_header(&mut buf) {
+                let enc = crate::codec::enc_header(k, &hd);
+                let mut with = enc.clone();
+                with.extend_from_slice(&[0xAA, 0x55, 0x01]);
+                let mut b2: &[u8] = &with;
+                match crate::codec::AnyCodec(k).decode_header(&mut b2) {
+                    Ok(h2) if h2 == hd && b2.len() == 3 => {}
+                    other => problems.push(format!("header round trip: {:?}", other.map(|x| msg_text(&x.message)))),
+                }
+                for sz in 0..enc.len() {
+                    let lim = Vec::new().limit(sz);
+                    let mut lim = lim;
+                    if crate::codec::AnyCodec(k).encode_header(&hd, &mut lim).is_ok() {
+                        problems.push(format!("header encoded into {} < {} bytes", sz, enc.len()));
+                    }
+                    let mut t: &[u8] = &enc[..sz];
+                    if let Ok(hx) = crate::codec::AnyCodec(k).decode_header(&mut t) {
+                        if hx == hd {
+                            problems.push(format!("truncated header ({} of {}) decoded to the same value", sz, enc.len()));
+                        }
+                    }
+                }
+            }
+            let mut buf: &[u8] = &bytes;
+            if let Ok(md) = crate::codec::AnyCodec(k).decode_member(&mut buf) {
+                let enc = crate::codec::enc_member(k, &md);
+                let mut with = enc.clone();
+                with.extend_from_slice(&[0xAA, 0x55]);
+                let mut b2: &[u8] = &with;
+                match crate::codec::AnyCodec(k).decode_member(&mut b2) {
+                    Ok(m2) if m2 == md && b2.len() == 2 => {}
+                    _ => problems.push("member round trip".into()),
+                }
+                for sz in 0..enc.len() {
+                    let mut lim = Vec::new().limit(sz);
+                    if crate::codec::AnyCodec(k).encode_member(&md, &mut lim).is_ok() {
+                        problems.push(format!("member encoded into {} < {} bytes", sz, enc.len()));
+                    }
+                }
+            }
+            (h, m, problems)
+        });
+        let (h, m, problems) = match r {
+            Ok(x) => x,
+            Err(_) => return Some(f("decoding or encoding never panics", &format!("C20:panic:{}", k.name()), crate::proto::hex(&bytes))),
+        };
+        if let Some(p) = problems.first() {
+            return Some(f("values round-trip exactly; short buffers are an error", &format!("C20:{}:{}", k.name(), p.split(' ').next().unwrap_or("")), format!("{} on {}", p, crate::proto::hex(&bytes))));
+        }
+        if let Some(d) = drv.as_mut() {
+            let mh = d.raw(&format!("codec dech {} {}", k.name(), crate::proto::hex(&bytes)));
+            let mm = d.raw(&format!("codec decm {} {}", k.name(), crate::proto::hex(&bytes)));
+            if mh.first() != Some(&h) {
+                return Some(f("the Lean byte-level model agrees with the real decoder", &format!("C20:model-header:{}", k.name()), format!("{}: real `{}` model `{:?}`", crate::proto::hex(&bytes), h, mh.first())));
+            }
+            if mm.first() != Some(&m) {
+                return Some(f("the Lean byte-level model agrees with the real decoder", &format!("C20:model-member:{}", k.name()), format!("{}: real `{}` model `{:?}`", crate::proto::hex(&bytes), m, mm.first())));
+            }
+        }
+    }
+    None
+}
+
+pub fn search_c20(seed: u64, first: u64, n_evals: u64) -> SearchOut {
+    let mut out = SearchOut::default();
+    let mut drv = crate::driver::Driver::spawn().ok();
+    if drv.is_none() {
+        out.bump("driver-missing");
+    }
+    for ci in first..first + n_evals {
+        let mut r = Sm::new(seed.wrapping_mul(0x6C8E9CF5).wrapping_add(ci).wrapping_add(0xC20));
+        let codec = *r.pick(&crate::codec::CodecKind::ALL);
+        let any_u16 = |r: &mut Sm| -> u16 { let (a, b) = (r.below(65536) as u16, r.below(300) as u16); *r.pick(&[0u16, 1, 127, 128, 250, 251, 252, 255, 256, 16383, 16384, 65534, 65535, a, b]) };
+        let id = |r: &mut Sm| VId::new(any_u16(r), any_u16(r));
+        let n8 = |r: &mut Sm| { let a = r.below(256) as u8; *r.pick(&[0u8, 1, 127, 128, 250, 251, 255, a]) };
+        let msg = match r.below(11) {
+            0 => Message::Ping(n8(&mut r)),
+            1 => Message::Ack(n8(&mut r)),
+            2 => Message::PingReq { target: id(&mut r), probe_number: n8(&mut r) },
+            3 => Message::IndirectPing { origin: id(&mut r), probe_number: n8(&mut r) },
+            4 => Message::IndirectAck { target: id(&mut r), probe_number: n8(&mut r) },
+            5 => Message::ForwardedAck { origin: id(&mut r), probe_number: n8(&mut r) },
+            6 => Message::Announce,
+            7 => Message::Feed,
+            8 => Message::Gossip,
+            9 => Message::Broadcast,
+            _ => Message::TurnUndead,
+        };
+        let mut bytes = if r.chance(50) {
+            crate::codec::enc_header(codec, &Header { src: id(&mut r), src_incarnation: any_u16(&mut r), dst: id(&mut r), message: msg })
+        } else {
+            crate::codec::enc_member(codec, &Member::new(id(&mut r), any_u16(&mut r), *r.pick(&[State::Alive, State::Suspect, State::Down])))
+        };
+        let mode = r.below(6);
+        match mode {
+            0 => {}
+            1 => {
+                let n = r.below(bytes.len() as u64 + 1) as usize;
+                bytes.truncate(n);
+            }
+            2 if !bytes.is_empty() => {
+                let i = r.below(bytes.len() as u64) as usize;
+                bytes[i] = r.below(256) as u8;
+            }
+            3 => {
+                for _ in 0..r.range(1, 4) {
+                    bytes.push(r.below(256) as u8);
+                }
+            }
+            4 => bytes = (0..r.below(14)).map(|_| { let a = r.below(256) as u8; *r.pick(&[0u8, 1, 0x7f, 0x80, 0xfb, 0xfc, 0xfd, 0xff, a]) }).collect(),
+            _ => {
+                if !bytes.is_empty() {
+                    let i = r.below(bytes.len() as u64) as usize;
+                    bytes[i] ^= 1 << r.below(8);
+                }
+            }
+        }
+        let mut setup = Setup { id: VId::new(1, 0), policy: Policy::None, codec, handler: crate::handler::HandlerKind::None, cfg: Cfg::simple(), rng_seed: 0 };
+        setup.cfg.mps = 1400;
+        let case = SearchCase { check: "c20".into(), instances: vec![(setup, vec![Op::Data(bytes.clone())])] };
+        out.evaluations += 1;
+        out.bump(&format!("codec.{}", codec.name()));
+        out.bump(&format!("mode.{}", mode));
+        let h = fnv(&case.text());
+        out.distinct.insert(h);
+        if bytes.len() >= 2 {
+            out.nontrivial.insert(h);
+        }
+        if out.samples.len() < 2 {
+            out.samples.push(case.text());
+        }
+        if let Some(fd) = check_c20(&case, &mut drv) {
+            if !out.violations.iter().any(|(g, _)| g.signature == fd.signature) {
+                out.violations.push((fd, case));
+            }
+        }
+    }
+    out
+}
+
 #[allow(dead_code)]
 fn unused(_: Cfg, _: Setup, _: BTreeMap<u8, u8>, _: Duration) {}
